@@ -345,6 +345,8 @@ def unfold_chain(rest, cursor0=("in", "bytes")):
 def lit_bytes(t):
     if t[0] == "lit" and t[1] == "bytes":
         return t[2]
+    if t[0] == "array" and t[1] and all(e_[0] == "lit" and e_[1] == "int" and 0 <= e_[2] < 256 for e_ in t[1]):
+        return bytes(e_[2] for e_ in t[1])      # `&[terminator]` with the byte known at this call
     if t[0] == "call" and t[1] in ("std::array::as_slice", "core::array::as_slice") and len(t[2]) == 1:
         return lit_bytes(t[2][0])       # `PREFIX.as_slice()` of a byte-array constant
     if t[0] == "const" and t[2]:
